@@ -6,6 +6,7 @@
    License, v. 2.0. If a copy of the MPL was not distributed with this
    file, You can obtain one at http://mozilla.org/MPL/2.0/. */
 
+#include <limits.h>
 #include <stdlib.h>
 #include <string.h>
 #include <stdio.h>
@@ -86,7 +87,16 @@ int jwt_parse(jwt_t *jwt, const char *token, unsigned int *len)
 {
 	char_auto *head = NULL;
 	char *payload, *sig;
-	int head_len = strlen(token) + 1;
+	size_t token_len = strlen(token);
+	int head_len;
+
+	/* The lengths handed on from here are int and unsigned int */
+	if (token_len >= INT_MAX) {
+		jwt_write_error(jwt, "Token is too long");
+		return 1;
+	}
+
+	head_len = token_len + 1;
 
 	head = jwt_malloc(head_len);
 	if (!head) {
